@@ -85,6 +85,7 @@ def gen(rng, idx, tier):
     p_update = float(rng.choice([0.05, 0.15, 0.3]))
     p_x0 = float(rng.choice([0.0, 0.2, 0.5]))
     p_fault = 0.15 if inner == "chol" and rng.random() < 0.5 else 0.0
+    scale0 = float(rng.choice([1.0, 1.0, 1.0, 1e-10, 1e-4, 1e6]))
     first = True
     for _ in range(nops):
         w = int(rng.integers(0, nwr))
@@ -92,10 +93,18 @@ def gen(rng, idx, tier):
             pat = "full" if (first and flags == "auto") else str(rng.choice(G.PATTERNS))
             if p_fault and rng.random() < 0.5:
                 case["ops"].append(dict(op="fault", kind="cholesky_fail", arm=1))
-            case["ops"].append(dict(op="update", w=w, seed=int(rng.integers(1 << 30)), pattern=pat))
+            case["ops"].append(dict(op="update", w=w, seed=int(rng.integers(1 << 30)), pattern=pat,
+                                    scale=scale0 * float(rng.choice([1.0, 1.0, 10.0, 0.1]))))
             if first and nwr == 2:
                 case["ops"].append(dict(op="update", w=1 - w, seed=int(rng.integers(1 << 30)), pattern="full"))
             first = False
+            if rng.random() < 0.3:
+                # the very first solve on an empty database, with an initial guess and a block in which some column needs no
+                # inner solve (zero column) -- the x0 bookkeeping of a fresh database
+                case["ops"].append(dict(op="solve", w=w, kind=str(rng.choice(["zerocol", "block", "depblock"])), trans=str(rng.choice(["N", "N", "T"])),
+                                        seed=int(rng.integers(1 << 30)), cplx=False, k=int(rng.choice([2, 3])),
+                                        refs=[int(r) for r in rng.integers(0, 64, size=3)],
+                                        coef=[[float(c) for c in rng.uniform(-2, 2, 2)] for _ in range(3)], x0="rand"))
             continue
         kind = str(rng.choice(kinds_enabled))
         trans = str(rng.choice(["N", "N", "T", "H"]))
@@ -291,7 +300,7 @@ def run(case):
         w = op.get("w", 0) % nwr
         m = model[w]
         if op["op"] == "update":
-            A = G.make_matrix(dict(mdesc, seed=op["seed"], pattern=op["pattern"]))
+            A = G.make_matrix(dict(mdesc, seed=op["seed"], pattern=op["pattern"], scale=op.get("scale", 1.0)))
             via_ctor = False
             if W[w] is None:
                 W[w] = make_wrapper(case)
@@ -369,7 +378,20 @@ def run(case):
         if op["x0"] == "prev" and m["prev_x"] is not None and m["prev_x"].shape == b.shape:
             x0 = m["prev_x"].copy()
         elif op["x0"] == "rand":
-            x0 = G.rand_vec(op["seed"] + 1, b.shape, np.iscomplexobj(b) or case["cplx"])
+            # a wrong initial guess of the right magnitude, column by column (an O(1) guess for a solution of magnitude
+            # 1e-15 costs an iterative inner solver 15 digits before it starts: a conditioning artefact, not the wrapper's)
+            xe = np.linalg.solve(G.opmat(A, trans), b.reshape(n, -1))
+            mag = np.max(np.abs(xe), axis=0, keepdims=True)
+            x0 = (xe + mag * G.rand_vec(op["seed"] + 1, xe.shape, np.iscomplexobj(xe))).reshape(b.shape)
+        if x0 is not None and np.iscomplexobj(x0) and not (case["cplx"] or np.iscomplexobj(b)):
+            x0 = np.ascontiguousarray(x0.real)          # a real system gets a real initial guess
+        if x0 is not None and op["x0"] == "prev":
+            # an initial guess that is many orders of magnitude larger than the solution (previous answer of a differently scaled
+            # column) limits what an iterative inner solver can reach (eps*|A||x0|/|b|): conditioning artefact -> not passed
+            xe_ = np.linalg.solve(G.opmat(A, trans), b.reshape(n, -1))
+            if np.any(np.max(np.abs(x0.reshape(n, -1)), axis=0) > 1e3 * np.max(np.abs(xe_), axis=0)):
+                x0 = None
+                res["skipped"]["x0_prev_wrong_magnitude"] = res["skipped"].get("x0_prev_wrong_magnitude", 0) + 1
         if x0 is not None and any(len(h) for h in m["hist"].values()):
             probe("x0_nonempty_db")
 
@@ -393,8 +415,27 @@ def run(case):
                      f"{str(e)[:160]} -- the same call on a fresh wrapper succeeds", at,
                      feats=[f"exc={type(e).__name__}"])
             except Exception:
-                probe("fresh_twin_also_raises")
-                res["skipped"]["solve_raises_on_fresh_too"] = res["skipped"].get("solve_raises_on_fresh_too", 0) + 1
+                # transparency: would the *bare* inner solver answer this call?  (the wrapper must never turn a solvable call
+                # into a failure; zero columns are excluded, the wrapper exists to shield iterative solvers from them)
+                bare_ok = True
+                try:
+                    bare = make_inner(case["inner"])
+                    bare.update(A)
+                    x0c = None if x0 is None else np.asarray(x0).reshape(n, -1)
+                    for j in range(bcols.shape[1]):
+                        if np.linalg.norm(bcols[:, j]) == 0:
+                            continue            # a zero column is answered by zero; shielding it is the wrapper's job
+                        xb = bare.solve(bcols[:, j].copy(), x0=None if x0c is None else x0c[:, j].copy(), trans=trans)
+                        if not (np.all(np.isfinite(xb)) and xb.shape == (n,)):
+                            bare_ok = False
+                except Exception:  # noqa
+                    bare_ok = False
+                if bare_ok:
+                    viol("exception", f"solve(kind={kind}, trans={trans}, x0={op['x0']}) raised {type(e).__name__}: "
+                         f"{str(e)[:160]} -- the bare inner solver answers the same call", at, feats=[f"exc={type(e).__name__}", "bare_solver_succeeds"])
+                else:
+                    probe("fresh_twin_also_raises")
+                    res["skipped"]["solve_raises_on_fresh_too"] = res["skipped"].get("solve_raises_on_fresh_too", 0) + 1
             res["trace"].append(f"S{w}:{kind}:{trans}:EXC")
             break
         dcalls, dcols = counter.solve_calls - c0, counter.solve_cols - k0
